@@ -426,7 +426,9 @@ def engine_case(ctx, i, engine_name, opts, model_kind, nn_only, expected_order, 
             ctx.violation(tag + ':state-far-from-exp(-iHt)psi0', 'relative distance %r after %d steps of %r (|H| = %.2f)' %
                           (err1, n_tot, dt, scale), case)
         # ---- order: same total time with the step halved (repeatedly, until the asymptotic regime shows or the floor is reached)
-        if expected_order is not None:
+        if expected_order is not None and scale * dt_abs > 0.5:
+            ctx.count('order.step_too_large_for_asymptotics')  # |H| dt of order one: nothing to conclude from ratios
+        elif expected_order is not None:
             need = {1: 1.5, 2: 2.8, 4: 8.}[expected_order]
             errs = [err1]
             ok = None
